@@ -111,7 +111,8 @@ struct Client {
         if (ok && MP(th.g[b]) != exp) xv::ev("ev", "bad", 2, 0);    // snapshot equals expected
         if (th.g[b].get()) xv::ev("ev", "touch", th.g[b]->magic == 0xA11CE, th.g[b]->id);
       } else if (n == "rst") {
-        xv::ev("ev", "rel", gk(a)); th.g[a].reset();
+        // release is an operation of its own (a call / ret pair), so that solo probes start inside it (C16: guard release is lock-free)
+        xv::ev("ev", "rel", gk(a)); xv::call("release", a); open_call = true; th.g[a].reset(); open_call = false; xv::ret(0, 0);
       } else if (n == "cpy") {
         if (a != b) xv::ev("ev", "rel", gk(b));
         th.g[b] = th.g[a];
@@ -147,7 +148,7 @@ struct Client {
           if (ok) {
             xv::ev("ev", "pub", 0, fid);
             xv::ev("ev", "rel", gk(b)); xv::ev("ev", "retire", 0, old);
-            do_reclaim(th.g[b], old);
+            xv::call("reclaim", a); open_call = true; do_reclaim(th.g[b], old); open_call = false; xv::ret(0, 0);
           } else {
             delete fresh;
           }
